@@ -667,6 +667,12 @@ func init() {
 
 // strconv.Quote: identity wrapped in quotes for printable ASCII without '"' and '\', UF otherwise
 func (e *Engine) quote(st *State, s *Term) *Term {
+	if !s.K {
+		// character vectors: escaped position by position (callers are wrapped by forking)
+		if cv, ok := charVec(s); ok {
+			return cvTerm(e.cvQuote(cv))
+		}
+	}
 	// exact for short printable-ASCII strings: per character escaping of '"' and '\\'
 	if !s.K {
 		ln := StrLen(s)
